@@ -142,6 +142,10 @@ class LoopSpec(object):
         # instead of fresh symbols (run 2 = image of run 1's symbols)
         self.havoc_map = havoc_map or {}
         self.log = dict(entry=None, head=None, ends=[], exits=[])
+        self.logs = []      # one log per execution of the loop statement
+        # called on every exit state (contracts use it to install the
+        # abstract value a loop leaves in a ghost/stub object)
+        self.exit_hook = None
 
 
 class CalleeContract(object):
@@ -742,6 +746,8 @@ class Executor(object):
             names.discard(ivar)
             if rng.step != 1:
                 raise VCError('cut for-loop with step != 1')
+        spec.log = dict(entry=None, head=None, ends=[], exits=[])
+        spec.logs.append(spec.log)
         entry = st.clone()
         st.env['__entry__'] = entry.env
 
@@ -861,6 +867,8 @@ class Executor(object):
                     out.append((s3, sig))
         for se in exit_states:
             if self.feasible(se.pc):
+                if spec.exit_hook is not None:
+                    spec.exit_hook(se)
                 spec.log['exits'].append(se.clone())
                 out.extend(self.exec_block(node.orelse, se))
         return out
